@@ -2,6 +2,7 @@ import PasetoModel.PaserkInst
 import PasetoModel.TextLemmas
 import PasetoModel.Forms
 import PasetoModel.Props.C10
+import PasetoModel.SpecHeaders
 /-! # C13 — key ids are the spec's hash of the key's PASERK text, stable, domain-separated -/
 namespace PM.C13
 
@@ -86,6 +87,12 @@ theorem keyid_eq_iff_text_eq (b : Backend) (k : Kind) (d₁ d₂ : Bytes) :
     rw [h, parseSimple_showSimple] at h1
     injection h1 with h1; exact h1.symm
   · intro h; rw [h]
+
+/-- the id header strings hashed by the running code (regenerated on every run) are the PASERK documents'
+    `.lid.` / `.sid.` / `.pid.`, and the PASERK version prefixes are `k1`..`k4` -/
+theorem id_headers_are_spec :
+    (∀ k ∈ [Kind.localK, .publicK, .secretK, .pkePublic, .pkeSecret], Extracted.idHeader k = Spec.idHeader k) ∧
+    (∀ b ∈ Backend.all, Extracted.paserkHeader b = Spec.paserkHeader b) := by decide
 
 /-! non-vacuity -/
 example : (Form.id .localK).header .v4 ≠ (Form.id .secretK).header .v4 := by decide
